@@ -798,3 +798,134 @@ Proof.
   rewrite Hdup. destruct (has_dup_str (nd ++ d)); cbn [bind sig_agrees]; [reflexivity|].
   exists nd'. split; [exact Hpn|reflexivity].
 Qed.
+
+(* ================================================================== the class environment as a heap *)
+
+(* Class c of the environment is the object "c" (the four classes of typedpy have their own names: "Structure",
+   "FinalStructure", ...):
+     isinstance(c, StructMeta)   k_is_struct
+     isinstance(c, FieldMeta)    False (no attribute)
+     c.__mro__ / c.mro()         the classes of k_mro (object and UniqueMixin, which no test looks for, left out)
+     c.__signature__             Signature(required parameters, optional parameters = None[, **kwargs])
+     c.__dict__                  "_additional_properties" when the class body set it, and whatever else [extra c]
+                                 lists (never the two spellings of that key)
+   TypedPyDefaults is the object "TypedPyDefaults" with the settings of [guards]. *)
+Definition n_TypedPyDefaults : pystr := s2p "TypedPyDefaults".
+Definition n_addl : pystr := s2p "_additional_properties".
+Definition n_addl_old : pystr := s2p "_additionalProperties".
+
+Definition v_refs (l : list pystr) : list pyval := map ref l.
+
+Definition class_dict (k : klass) (extra : list (pystr * pyval)) : list (pystr * pyval) :=
+  match k_additional k with Some b => [(n_addl, PBool b)] | None => [] end ++ extra.
+
+Definition extra_ok (extra : list (pystr * pyval)) : bool :=
+  negb (alist_has extra n_addl) && negb (alist_has extra n_addl_old).
+
+Definition class_attr (k : klass) (extra : list (pystr * pyval)) (a : pystr) : option pyval :=
+  if pystr_eqb a (isinstance_attr (s2p "StructMeta")) then Some (PBool (k_is_struct k))
+  else if pystr_eqb a n_mro then Some (PTuple (v_refs (k_mro k)))
+  else if pystr_eqb a (s2p "mro()") then Some (PList (v_refs (k_mro k)))
+  else if pystr_eqb a (s2p "__signature__") then Some (v_sig (k_sig_req k) (k_sig_opt k) (k_sig_kwargs k))
+  else if pystr_eqb a (s2p "__dict__") then Some (PDict (skeys (class_dict k extra)))
+  else None.
+
+Definition defaults_attr (gd : guards) (a : pystr) : option pyval :=
+  if pystr_eqb a (s2p "additional_properties_default") then Some (PBool (gd_additional_default gd))
+  else if pystr_eqb a (s2p "block_unknown_consts") then Some (PBool (gd_block_unknown_consts gd))
+  else None.
+
+Definition genv_heap (gd : guards) (g : genv) (extra : pystr -> list (pystr * pyval)) : heap :=
+  fun o a =>
+    match find_klass g o with
+    | Some k => class_attr k (extra o) a
+    | None => if pystr_eqb o n_TypedPyDefaults then defaults_attr gd a else None
+    end.
+
+Section EnvHeap.
+  Variable gd : guards.
+  Variable g : genv.
+  Variable extra : pystr -> list (pystr * pyval).
+  Notation hp := (genv_heap gd g extra).
+
+  Lemma heap_isinstance_struct c :
+    obj_isinstance hp (ref c) (s2p "StructMeta") = Ok (match find_klass g c with Some k => k_is_struct k | None => false end).
+  Proof.
+    unfold obj_isinstance, ref. rewrite pystr_eqb_refl. unfold genv_heap.
+    destruct (find_klass g c) as [k|].
+    - unfold class_attr. rewrite pystr_eqb_refl. destruct (k_is_struct k); reflexivity.
+    - destruct (pystr_eqb c n_TypedPyDefaults); reflexivity.
+  Qed.
+
+  Lemma heap_isinstance_fieldmeta c : obj_isinstance hp (ref c) (s2p "FieldMeta") = Ok false.
+  Proof.
+    unfold obj_isinstance, ref. rewrite pystr_eqb_refl. unfold genv_heap.
+    destruct (find_klass g c) as [k|]; [reflexivity|]. destruct (pystr_eqb c n_TypedPyDefaults); reflexivity.
+  Qed.
+
+  Lemma existsb_refs r l :
+    existsb (fun x => match is_ref x with Some xn => pystr_eqb xn r | None => false end) (v_refs l) = str_in r l.
+  Proof.
+    unfold str_in, v_refs. induction l as [|x t IH]; [reflexivity|]. cbn [map existsb].
+    replace (is_ref (ref x)) with (Some x) by (unfold is_ref, ref; rewrite pystr_eqb_refl; reflexivity).
+    rewrite (pystr_eqb_sym x r), IH. reflexivity.
+  Qed.
+
+  Lemma is_ref_ref n : is_ref (ref n) = Some n.
+  Proof. unfold is_ref, ref. rewrite pystr_eqb_refl. reflexivity. Qed.
+
+  Lemma heap_issubclass c k r : find_klass g c = Some k ->
+    obj_issubclass hp (ref c) (ref r) = Ok (str_in r (k_mro k)).
+  Proof.
+    intro Hk. unfold obj_issubclass. rewrite !is_ref_ref. unfold genv_heap. rewrite Hk.
+    replace (class_attr k (extra c) n_mro) with (Some (PTuple (v_refs (k_mro k)))) by reflexivity.
+    rewrite existsb_refs. reflexivity.
+  Qed.
+
+  Lemma ne_refs a b : py_ne (ref a) (ref b) = Ok (negb (pystr_eqb a b)).
+  Proof. unfold py_ne, ref. cbn [py_eq]. rewrite pystr_eqb_refl. reflexivity. Qed.
+End EnvHeap.
+
+Lemma foldM_check (f : unit -> pyval -> res unit) (bad : pystr -> bool) x l :
+  (forall c, f tt (ref c) = if bad c then Raise x else Ok tt) ->
+  dv_foldM f (v_refs l) tt = if existsb bad l then Raise x else Ok tt.
+Proof.
+  intro H. unfold dv_foldM, v_refs. induction l as [|c t IH]; [reflexivity|].
+  cbn [map py_foldM existsb]. rewrite H. destruct (bad c); cbn [bind orb]; [reflexivity|exact IH].
+Qed.
+
+(* ================================================================== _check_for_final_violations *)
+
+Lemma globals_Final : dv_in_globals module_globals (PStr (s2p "FinalStructure")) = Ok true.
+Proof. reflexivity. Qed.
+Lemma globals_Immutable : dv_in_globals module_globals (PStr (s2p "ImmutableStructure")) = Ok true.
+Proof. reflexivity. Qed.
+Lemma globals_FieldMeta : dv_in_globals module_globals (PStr (s2p "FieldMeta")) = Ok true.
+Proof. reflexivity. Qed.
+Lemma globals_Structure : dv_in_globals module_globals (PStr (s2p "Structure")) = Ok true.
+Proof. reflexivity. Qed.
+
+(* _check_for_final_violations(clsobj.mro()) for a class whose MRO is name :: mro_tail: TypeError exactly when the
+   model's [final_violation] holds, None otherwise -- for every environment and every MRO *)
+Theorem check_final_src so X gd g extra name mro_tail :
+  DefineSrc.check_for_final_violations so X (genv_heap gd g extra) (PList (v_refs (name :: mro_tail))) =
+  if final_violation g mro_tail then Raise TypeError else Ok PNone.
+Proof.
+  unfold DefineSrc.check_for_final_violations. cbv zeta.
+  unfold py_unpack. cbn [v_refs map py_iter_items bind length Nat.leb firstn skipn app].
+  rewrite deref_list. cbn [dv_iter bind]. fold (v_refs mro_tail).
+  rewrite (foldM_check _ (fun c => strict_sub g c n_Final || strict_sub g c n_Immutable) TypeError).
+  - unfold final_violation. destruct (existsb _ mro_tail); reflexivity.
+  - intro c. cbn [bind]. rewrite globals_Final, globals_Immutable, globals_FieldMeta.
+    rewrite heap_isinstance_struct, heap_isinstance_fieldmeta. unfold strict_sub.
+    cbn [py_and bind]. destruct (find_klass g c) as [k|] eqn:Hk.
+    2:{ rewrite !andb_false_r. reflexivity. }
+    destruct (k_is_struct k); cbn [andb].
+    2:{ rewrite !andb_false_r. reflexivity. }
+    rewrite !(heap_issubclass gd g extra c k _ Hk), !ne_refs. cbn [bind py_and].
+    change (s2p "FinalStructure") with n_Final. change (s2p "ImmutableStructure") with n_Immutable.
+    destruct (str_in n_Final (k_mro k)); cbn [bind deref py_truthy andb];
+      destruct (pystr_eqb c n_Final); cbn [negb andb orb bind deref py_truthy];
+      destruct (str_in n_Immutable (k_mro k)); cbn [bind deref py_truthy andb];
+      destruct (pystr_eqb c n_Immutable); reflexivity.
+Qed.
